@@ -879,6 +879,22 @@ func c07Inputs(c *Check) {
 			c.Hold("R9", o.Key, o.posRaw, o.OK, o.Msg)
 		}
 	}
+	// the SPF / DKIM results DMARC evaluates are part of the check results: none is dropped on the way to the merge
+	c06ResultsKept(c, "R9b")
+	// the quarantine action of the DMARC verdict is a flag on the message metadata: every target must hold the object it is set on
+	c.Rule("R9c", "the quarantine action reaches the targets: targets keep, and the pipeline hands them, the metadata object the verdict is written to (C06.R5, C06.R5c)", 2)
+	{
+		sub := newCheck("C06", c.P, c.Tier)
+		c06MetadataIdentity(sub)
+		for _, o := range sub.obs {
+			if o.Rule == "R5" || o.Rule == "R5c" {
+				c.Hold("R9c", o.Rule+":"+o.Key, o.posRaw, o.OK, o.Msg)
+			}
+		}
+		for f := range sub.funcs {
+			c.SawFunc(f)
+		}
+	}
 	for f := range sub.funcs {
 		c.SawFunc(f)
 	}
